@@ -27,12 +27,11 @@ Definition handled_as (s : state) (r : resp) (q : req) (k : nat) (s' : state) : 
 
 Lemma try_handle_handled s r s' :
   try_handle s r = Handled s' ->
-  exists q, find (matches (node s) r) (reqs s) = Some q /\ alive s (q_sid q) = true /\
+  exists q, find (matches (node s) r) (reqs s) = Some q /\ True /\
             handled_as s r q (q_tot q - q_left q) s'.
 Proof.
   unfold try_handle. destruct (find (matches (node s) r) (reqs s)) as [q|] eqn:Ef; [|discriminate].
-  destruct (alive s (q_sid q)) eqn:Ea; cbn [negb]; [|discriminate].
-  intros H. exists q. split; [reflexivity|]. split; [exact Ea|].
+  intros H. exists q. split; [reflexivity|]. split; [exact I|].
   set (k := (q_tot q - q_left q)%nat) in *. cbn zeta in H.
   assert (FIN : forall u us,
              match aget pair_eqb (q_app q, q_res q) (arrs s) with
@@ -76,7 +75,6 @@ Lemma try_handle_notnow s r :
                         aget Z.eqb (q_app q) (ums s) = Some um /\ has_virtual um v = true).
 Proof.
   unfold try_handle. destruct (find (matches (node s) r) (reqs s)) as [q|] eqn:Ef; [|auto].
-  destruct (alive s (q_sid q)); cbn [negb]; [|discriminate].
   intros H. right. cbn zeta in H.
   assert (FIN : forall u us,
              match aget pair_eqb (q_app q, q_res q) (arrs s) with
@@ -225,7 +223,7 @@ Lemma hit_facts s s2 :
   exists r q l1 l2,
     pend s = l1 ++ r :: l2 /\ pend s2 = l1 ++ l2 /\
     Forall (fun x => try_handle s x = NotNow) l1 /\
-    find (matches (node s) r) (reqs s) = Some q /\ alive s (q_sid q) = true /\
+    find (matches (node s) r) (reqs s) = Some q /\ True /\
     reqs s2 = dec_first (matches (node s) r) (reqs s) /\
     log s2 = (r_id r, q_id q, (q_tot q - q_left q)%nat) :: log s /\
     next_resp s2 = next_resp s /\ next_req s2 = next_req s /\ issued s2 = issued s /\ node s2 = node s /\
@@ -659,15 +657,16 @@ Qed.
 (* ------------------------------------------------------------------ the environment contract is needed *)
 Definition demo_resp (k : bool) (flag cid q : Z) : resp := mkResp 0 k 1 0 flag q cid cid 50 7 1.
 
-(* (ii) issuer_alive: a request whose subroutine has ended (no wait after create_epr) makes
-   the handling of its response fault; nothing is consumed *)
-Theorem issuer_dead_refuted :
-  exists s r, run (init_state 0) [Init 0 2; Create 0 (1, 0) true [0] 1 0 1 2 []] = Some s /\
-              List.length (reqs s) = 1%nat /\ subs s = [] /\
-              step s (Resp r) = (arrive s r, Some EUnknownSub).
-Proof.
-  eexists. exists (demo_resp true 0 1 101). split; [vm_compute; reflexivity|]. vm_compute. repeat split; reflexivity.
-Qed.
+(* (ii) the issuing subroutine need not be alive any more (the request carries its
+   application since fix 24473e3): a request whose subroutine has ended (no wait after
+   create_epr) still consumes its response -- slice written, qubit mapped, request retired *)
+Theorem issuer_may_have_ended :
+  exists s s', run (init_state 0) [Init 0 2; Create 0 (1, 0) true [0] 1 0 1 2 []] = Some s /\
+               List.length (reqs s) = 1%nat /\ subs s = [] /\
+               step s (Resp (demo_resp true 0 1 101)) = (s', None) /\
+               reqs s' = [] /\ pend s' = [] /\ log s' = [(0, 0, 0)%nat] /\ ums s' = [(0, [Some 101; None])] /\
+               option_map (fun l => nth_error l 2) (aget pair_eqb (0, 2) (arrs s')) = Some (Some (Some 101)).
+Proof. eexists. eexists. vm_compute. repeat split; reflexivity. Qed.
 
 (* (iii) type_consistent: a measure-directly response is accepted for a create-and-keep
    request: the pair is consumed, its slice is written, but no qubit is mapped *)
